@@ -501,6 +501,30 @@ func TestL2(t *testing.T) {
 			exploreL2([][]string{{ms[i].Name}, {ms[j].Name}}, cap, findings, stats)
 		}
 	}
+	// composite store operations (built from other locked operations: RotateRefreshToken = revoke refresh + revoke access,
+	// RevokeAccessToken = delete by index + sweep) against every two-step observer over the refresh and access token tables, in
+	// both orders: a composite that is not atomic shows only to a task that looks at both tables. All schedules up to the cap.
+	rtOps := []string{"GetRefreshTokenSession", "DeleteRefreshTokenSession", "CreateRefreshTokenSession", "RevokeRefreshToken"}
+	atOps := []string{"GetAccessTokenSession", "DeleteAccessTokenSession", "CreateAccessTokenSession", "RevokeAccessToken"}
+	obs := 0
+	for _, comp := range []string{"RotateRefreshToken", "RevokeAccessToken", "RevokeRefreshToken"} {
+		for _, x := range rtOps {
+			for _, y := range atOps {
+				for _, pairXY := range [][]string{{x, y}, {y, x}} {
+					obs++
+					if obs%shards != shard {
+						continue
+					}
+					stats["composite-observer-sets"]++
+					cap := 1500
+					if tier == "thorough" {
+						cap = 40000
+					}
+					exploreL2([][]string{pairXY, {comp}}, cap, findings, stats)
+				}
+			}
+		}
+	}
 	// seeded triples / two-operation sequences (sampled)
 	seed := uint64(1)
 	fmt.Sscanf(os.Getenv("VERIF_SEED"), "%d", &seed)
